@@ -243,7 +243,10 @@ def run(ctx):
         mo = model_of[k]
         ii = "ok:" + bytes.fromhex(i[3:]).decode("utf8", "replace") if i.startswith("ok:") else i
         ctx.count("mutant.well-formed." + i.split(":")[0])
-        if ii != mo:
+        # which of the two "unexpected event" errors a refusal carries (a start tag where the element had to end, or an end where a
+        # start tag was required) is not part of the property and not distinguished by the model: both are one class of refusal
+        ii_c, mo_c = (x.replace("err:UnexpectedEnd", "err:UnexpectedStart") if x.startswith("err:") else x for x in (ii, mo))
+        if ii_c != mo_c:
             # quick-xml reports some well-formedness problems expat tolerates differently: only value-level differences count
             if i.startswith("err:InvalidXml") and mo.startswith("err:"):
                 continue
